@@ -12,6 +12,8 @@
 (***************************************************************************)
 EXTENDS NumSubjects, TLC, Json, IOUtils
 
+CONSTANT CHECK_NONNEG      \* C12: dispersion measures are never negative
+
 Rec == ndJsonDeserialize(IOEnv.TRACE)
 
 VARIABLES l, subj, par, H, R, t, M, live
@@ -84,6 +86,8 @@ TNext == /\ Is("next") /\ live
                 m2 == FxMax(M, InMag(subj, x))
                 q  == NExpect(subj, par, h2, R, x, t + 1, m2)
             IN  /\ Accept(E.y, q.exp)
+                \* dispersion measures are never negative (C12)
+                /\ (CHECK_NONNEG /\ subj \in {"LinearVolatility", "StDev", "MeanAbsDev", "MedianAbsDev", "TR"} /\ IsNum(E.y)) => Fx(E.y).s >= 0
                 \* HeikinAshi outputs a valid candle whenever its input is valid (C17)
                 /\ (subj = "HeikinAshi" /\ ValidC(x)) => ValidC(Cndl(E.y))
                 /\ H' = h2 /\ R' = q.st /\ M' = m2
@@ -91,12 +95,34 @@ TNext == /\ Is("next") /\ live
          /\ UNCHANGED <<subj, par, live>>
          /\ Step
 
+\* C07 soak checkpoint: an instance that has already processed E.t inputs (millions).  The event carries the recent
+\* inputs (`warm`, oldest first: the whole window for finite-window methods, ~64/alpha inputs for the exponential kinds,
+\* whose older inputs weigh < e^-128) and the largest input magnitude of the whole past.  The spec rebuilds its state
+\* from them alone; the following `next` events are then checked against the definition with the allowance at step t.
+RECURSIVE WarmUp(_, _, _, _, _, _)
+WarmUp(s, p, h, r, ws, i) ==
+    IF i > Len(ws) THEN [h |-> h, r |-> r]
+    ELSE LET h2 == Append(Tail(h), ws[i])
+             q  == NExpect(s, p, h2, r, ws[i], 1, FxOne)
+         IN  WarmUp(s, p, h2, q.st, ws, i + 1)
+TCkpt == /\ Is("ckpt")
+         /\ LET s == E.subject
+                p == Par(s, E.params)
+                ws == [i \in 1..Len(E.warm) |-> In(s, E.warm[i])]
+                w == WarmUp(s, p, [i \in 1..NDepth(s, p) |-> ws[1]], NInit(s, p, ws[1]), ws, 1)
+            IN  /\ subj' = s /\ par' = p /\ H' = w.h /\ R' = w.r /\ M' = Fx(E.mmax)
+         /\ t' = E.t /\ live' = TRUE
+         /\ Step
+
 \* peek must return the value most recently produced (logged as bit-equality by the harness)
 TPeek == Is("peek") /\ live /\ E.same = TRUE /\ UNCHANGED <<subj, par, H, R, t, M, live>> /\ Step
 
-Next == TReset \/ TNew \/ TNext \/ TPeek
+Next == TReset \/ TNew \/ TNext \/ TPeek \/ TCkpt
 Spec == Init /\ [][Next]_vars
 
+\* reaching the end of the trace ends the search at once (reported by TLC as a violation of NotDone = accepted);
+\* otherwise the postcondition reports the longest matched prefix
+NotDone == l <= Len(Rec)
 Matched == TLCGet("stats").diameter - 1
 TraceAccepted ==
     \/ Matched = Len(Rec)
